@@ -289,7 +289,8 @@ def _check_from_dict(prog: Program, L: Ledger, d: ClassInfo, fd: FuncInfo) -> No
     from ..normalize import flat
 
     fd0 = fd
-    fd = flat(prog, fd, d)
+    # public loaders the constructor delegates to (load_attributes / load_context / load_moves …) are seen through
+    fd = flat(prog, fd, d, keep=("add_move", "to_dict", "from_dict", "validate_simulation", "set_labels"), public_methods=True)
     body = fd.node
     top = fd.body()
     finl = Inliner(body)
@@ -308,12 +309,24 @@ def _check_from_dict(prog: Program, L: Ledger, d: ClassInfo, fd: FuncInfo) -> No
             inst = n.targets[0].id if isinstance(n.targets[0], ast.Name) else None
     if inst is None:
         raise AnalysisError(f"{fd.qualname}: construction `x = cls(...)` not found")
+    def mentions(e, key: str) -> bool:
+        """does the value come from data[key] — directly, through single-definition locals, or through a local whose
+        every non-None definition reads it (the shape an inlined lookup helper with a try/except takes)"""
+        e = finl.inline(e)
+        if key in norm(e):
+            return True
+        if isinstance(e, ast.Name):
+            defs = [st_.value for st_ in ast.walk(body) if isinstance(st_, ast.Assign) and any(isinstance(t_, ast.Name) and t_.id == e.id for t_ in st_.targets)]
+            real = [v_ for v_ in defs if not (isinstance(v_, ast.Constant) and v_.value is None)]
+            return bool(real) and all(key in norm(finl.inline(v_)) for v_ in real)
+        return False
+
     # rng restored in place, after construction
     rng_ok = False
     for n in walk_no_nested(body):
         if isinstance(n, ast.Assign) and len(n.targets) == 1:
             t = norm(n.targets[0])
-            if t == f"{inst}._rng.bit_generator.state" and "rng_state" in norm(finl.inline(n.value)) and order(n) > ctor_line:
+            if t == f"{inst}._rng.bit_generator.state" and mentions(n.value, "rng_state") and order(n) > ctor_line:
                 rng_ok = True
             if t in (f"{inst}._rng", f"{inst}.context.rng"):
                 L.violation("T4", f"{d.name}.from_dict:rng-rebind", f"{fd.module.relpath}:{n.lineno}",
